@@ -25,6 +25,7 @@ REGISTRY = {
     "C13": ("nixmc.props.c13", {}),
     "C10": ("nixmc.props.c10", {}),
     "C11": ("nixmc.props.c10", {}),
+    "C15": ("nixmc.props.c15", {}),
 }
 
 
